@@ -383,3 +383,70 @@ LONG_LINES = [l.encode() for l in [
     "vperm2i128 ymm8, ymm9, [r10d+r11d*8+0x12345678], 0x20", "mov rax, 0x1122334455667788",
     "adcx r12, [r13d+r14d*4+0x11223344]", "nop11", "nop9",
 ]]
+
+
+# ---- style rewritings (C16) ---------------------------------------------------------------------
+import re as _re
+_TOK = _re.compile(r"0x[0-9a-fA-F]+|[A-Za-z_][A-Za-z0-9_]*|[0-9]+|[\[\],+\-*]|\S")
+
+
+def restyle(line, r, numbers=True):
+    """a rewriting of `line` (str) that the documented syntax treats as the same line: letter case,
+    blanks/tabs at every legal position, trailing comment, hex digit case, and (if `numbers`)
+    decimal <-> hexadecimal spelling and leading zeros of constants"""
+    toks = _TOK.findall(line)
+    if not toks:
+        return line
+    out = []
+    for i, t in enumerate(toks):
+        # a scale factor (next to '*') is a one-character literal in the documented syntax: leave it
+        scale = (i > 0 and toks[i - 1] == "*") or (i + 1 < len(toks) and toks[i + 1] == "*")
+        if _re.fullmatch(r"0x[0-9a-fA-F]+", t):
+            v = int(t, 16)
+            if numbers and not scale and r.random() < 0.4:
+                k = r.random()
+                if k < 0.4 and v < (1 << 63):
+                    t = "%d" % v
+                elif k < 0.7:
+                    t = "0x" + "0" * r.randint(1, 3) + "%x" % v
+                else:
+                    t = "0x%x" % v
+            if t.startswith("0x") and r.random() < 0.4:
+                t = "0x" + t[2:].upper()
+        elif t.isdigit():
+            v = int(t)
+            if numbers and not scale and r.random() < 0.4:
+                k = r.random()
+                if k < 0.5:
+                    t = "0x%x" % v
+                else:
+                    t = "0" * r.randint(1, 2) + "%d" % v
+        elif t[0].isalpha():
+            t = "".join(c.upper() if r.random() < 0.35 else c for c in t)
+        out.append(t)
+
+    def blank(minimum=0):
+        k = r.random()
+        if k < 0.5:
+            return " " * minimum
+        return "".join(r.choice(" \t") for _ in range(max(minimum, r.randint(1, 3))))
+    s = blank() if r.random() < 0.5 else ""
+    s += out[0]
+    for i in range(1, len(out)):
+        prev, cur = out[i - 1], out[i]
+        need = 0
+        # a blank is REQUIRED only between the mnemonic and what follows it
+        if i == 1:
+            need = 1
+        # and never allowed inside "0x.." (single token) — tokens are atomic here
+        s += blank(need) if (need or r.random() < 0.45) else ""
+        s += cur
+    if r.random() < 0.4:
+        s += blank()
+    if r.random() < 0.35:
+        s += r.choice(["; comment", ";", " ; mov rax, rbx", ";;; x, y [z]", "; caf\xe9"])
+    return s
+
+
+SKIP_LINES = [b"", b"   ", b"\t", b"label:", b"  loop_1:  ", b"section .text", b"global foo", b"; just a comment",
+              b"SECTION .data", b"Global Bar", b"x: ; y"]
